@@ -316,6 +316,18 @@ def adt_base_name(tystr):
     return s if i < 0 else s[:i]
 
 
+PURE_CALLEES = [
+    r"IndexMut<.*> for \[.*\]>::index_mut$", r"Index<.*> for \[.*\]>::index$",
+    r"slice::<impl \[.*\]>::(split_at_mut|split_at|iter_mut|iter|len|is_empty|as_mut_ptr|as_ptr|first|last|get|get_mut)$",
+    r"as std::ops::DerefMut>::deref_mut$", r"as std::ops::Deref>::deref$",
+    r"AttributeEncoderContext::<'_>::(raw_value_mut|raw_value|encoded_message|context)$",
+    r"std::option::Option::<.*>::as_mut$", r"as std::convert::AsMut<.*>>::as_mut$",
+    r"Vec::<.*>::(len|is_empty|as_slice|as_mut_slice|iter|iter_mut|capacity)$",
+    r"HashMap::<.*>::(len|is_empty|contains_key|get)$", r"HashSet::<.*>::(len|is_empty|contains)$",
+    r"BinaryHeap::<.*>::(peek|len|is_empty)$",
+]
+
+
 class Interp:
     def __init__(self, prog, models=None, opaque=(), max_depth=10, max_paths=200000, loop_bound=4000,
                  trace_effects=None, step_only=None):
@@ -336,6 +348,8 @@ class Interp:
         self.key_log = None
         self._loop_heads = {}
         self.step_only = [re.compile(p) for p in step_only] if step_only is not None else None
+        # callees that only derive references / read through their `&mut` arguments (no havoc)
+        self.pure = [re.compile(p) for p in PURE_CALLEES]
         self.choice_effects = False
 
     # ------------------------------------------------------------------ heap helpers
@@ -733,9 +747,14 @@ class Interp:
             if op in ("Eq", "Ne") and a.key() == b.key() and not isinstance(a, Top):
                 return Const(1 if op == "Eq" else 0, "bool")
             return self.fresh_sym(st, "cmp:%s:%s:%s" % (op, self.short(a), self.short(b)))
+        base = op.replace("WithOverflow", "").replace("Unchecked", "")
+        if _op_depth(a) >= 3 or _op_depth(b) >= 3:
+            sym = Top("arith")          # widen deep arithmetic (loop counters)
+        else:
+            sym = Adt("op:%s" % base, 0, (a, b))
         if op.endswith("WithOverflow"):
-            return Adt("tuple", 0, (Top("arith"), Const(0, "bool")))
-        return Top("arith")
+            return Adt("tuple", 0, (sym, Const(0, "bool")))
+        return sym
 
     def short(self, v):
         k = v.key()
@@ -766,7 +785,7 @@ class Interp:
         if isinstance(v, Adt):
             if depth > 3:
                 return v.name.split("::")[-1]
-            nm = v.name.split("::")[-1]
+            nm = v.name.split("::")[-1] if not v.name.startswith("op:") else v.name
             if v.vname is not None and v.vname != nm:
                 nm = "%s::%s" % (nm, v.vname)
             if not v.fields:
@@ -1108,9 +1127,10 @@ class Interp:
         self.unmodelled[path] = self.unmodelled.get(path, 0) + 1
         st2 = st.fork()
         desc = []
+        is_pure = any(r.search(path) for r in self.pure)
         for a in args:
             desc.append(self.abstract(a, st2))
-            if isinstance(a, Ref) and a.mut:
+            if isinstance(a, Ref) and a.mut and not is_pure:
                 base = st2.heap.get(a.addr)
                 if base is not None:
                     try:
@@ -1145,6 +1165,12 @@ class Interp:
             if isinstance(a.addr, str):
                 return (a.addr,) + self.path_names(st, a.addr, a.path)
         return None
+
+
+def _op_depth(v):
+    if isinstance(v, Adt) and v.name.startswith("op:"):
+        return 1 + max([_op_depth(f) for f in v.fields] or [0])
+    return 0
 
 
 def _collect_syms(k, out):
